@@ -156,7 +156,16 @@ ASSUME DickeVecsAreDicke
 
 AmpJ(a) == IF IsNum(a) THEN [n |-> a.v] ELSE [s |-> a.s]
 VecJ(vec) == [i \in 1..Len(vec) |-> AmpJ(vec[i])]
-Emit == IF ~Emitting \/ (TLCGet("level") >= EmitAllBelow /\ ev'.op \in {"new", "set", "bind"} /\ RandomElement(1..EmitOneIn) # 1) THEN TRUE ELSE
+\* which deep transitions are exported is decided by a hash of the transition itself (not by TLC's random generator, whose draws
+\* depend on the worker schedule): the same behaviours are replayed in every run
+AmpHash(a) == IF IsNum(a) THEN a.v[1] + 2 * a.v[2] + 3 * a.v[3] + 5 * a.v[4] + 7 * a.v[5] ELSE (IF a.s = "a" THEN 11 ELSE 13)
+RECURSIVE VecHash(_, _)
+VecHash(vec, i) == IF i > Len(vec) THEN 0 ELSE i * AmpHash(vec[i]) + VecHash(vec, i + 1)
+RECURSIVE PoolHash(_, _)
+PoolHash(p, o) == IF o > Len(p) THEN 0 ELSE (17 * o) * VecHash(p[o], 1) + PoolHash(p, o + 1)
+TransHash(e, p) == LET hh == PoolHash(p, 1) + 19 * e.obj + 23 * e.args.i + 29 * AmpHash(e.args.val) + 31 * AmpHash(e.args.map.a) + 37 * AmpHash(e.args.map.b) + 41 * VecHash(e.args.vec, 1)
+                   IN IF hh < 0 THEN -hh ELSE hh
+Emit == IF ~Emitting \/ (TLCGet("level") >= EmitAllBelow /\ ev'.op \in {"new", "set", "bind"} /\ TransHash(ev', objs) % EmitOneIn # 0) THEN TRUE ELSE
   PrintT(ToJson([pid |-> ev.pid, lvl |-> TLCGet("level"), op |-> ev'.op, obj |-> ev'.obj, out |-> ev'.out, res |-> ev'.res, either |-> ev'.either,
                  i |-> ev'.args.i, val |-> AmpJ(ev'.args.val), map |-> [a |-> AmpJ(ev'.args.map.a), b |-> AmpJ(ev'.args.map.b)],
                  vec |-> VecJ(ev'.args.vec),
